@@ -115,7 +115,7 @@ def pre_checks(tier):
 def budget(tier):
     if tier == "quick":
         return {"runs": 12000, "chunk": 50, "wall_cap": 400.0, "det_sample": 8}
-    return {"runs": 400000, "chunk": 200, "wall_cap": 3300.0, "det_sample": 40}
+    return {"runs": 1200000, "chunk": 200, "wall_cap": 3300.0, "det_sample": 40}
 
 
 # ---------------------------------------------------------------------------- plan generation
